@@ -19,7 +19,7 @@ type KV struct {
 // Store: the module KV store as a sorted key/value list (A-store: ordered map,
 // end-exclusive ranges, iterators are snapshots taken at creation like cachekv).
 type Store struct {
-	Items []KV
+	Items  []KV
 	Writes int
 }
 
